@@ -480,6 +480,22 @@ def _taint_mutations(ctx: Ctx, f: FuncInfo, path: Path, tt: _Taint, seen: Set[st
                         yield f"passed as `{pn}` to {t.qualname}, which mutates it ({mp[pn]})"
 
 
+def check_setups_pure(ctx: Ctx, base: Optional[str]) -> None:
+    """the group settings handed to setup() are shared (one dict for all members of a group, and
+    shallow copies of the caller's configuration): no setup implementation may change what its
+    settings reach.  base: restrict to subclasses of that class (None = all)"""
+    ns = 0
+    for g0 in ctx.program.all_functions():
+        if g0.name != "setup" or g0.cls is None or "settings" not in g0.params:
+            continue
+        if base is not None and not ctx.program.is_subclass(g0.cls.name, base):
+            continue
+        ns += 1
+        mp0 = _mutated_params(ctx, g0)
+        ctx.check("settings" not in mp0, g0, g0.node, f"{g0.qualname} leaves the settings it is given untouched", "no store/del/mutator on anything reachable from `settings`", mp0.get("settings", "no mutation"))
+    ctx.require(ns >= (8 if base is None else 3), "fewer setup(settings) implementations than confirmed by reading")
+
+
 @rule("C07.R5", "running never modifies the caller's settings object: nothing reachable from it is mutated, directly or through a callee", "T14 taint (flow through aliases, loop elements and callee summaries)", floor=8)
 def r5(ctx: Ctx) -> None:
     p = ctx.program
@@ -499,16 +515,7 @@ def r5(ctx: Ctx) -> None:
                 ctx.check(not probs, nested, nested.node, f"{nested.qualname} leaves the caller's settings untouched", "no store/del/mutator on, and no mutating callee for, anything reachable from self.settings",
                           "; ".join(probs[:3]) if probs else "no mutation of tainted objects")
     ctx.require(n >= 8, "fewer runner methods analysed than exist")
-    # the group settings handed to setup() are shallow copies: lists and dicts nested in them are
-    # still the caller's objects, so no setup implementation may change what its settings reach
-    ns = 0
-    for g0 in ctx.program.all_functions():
-        if g0.name != "setup" or g0.cls is None or "settings" not in g0.params:
-            continue
-        ns += 1
-        mp0 = _mutated_params(ctx, g0)
-        ctx.check("settings" not in mp0, g0, g0.node, f"{g0.qualname} leaves the settings it is given untouched", "no store/del/mutator on anything reachable from `settings`", mp0.get("settings", "no mutation"))
-    ctx.require(ns >= 8, "fewer setup(settings) implementations than confirmed by reading")
+    check_setups_pure(ctx, None)
     # the constructor stores the caller's dict itself (so the above taint source is the right one)
     f = ctx.func("Runner.__init__")
     st = [e for pa in ctx.paths(f.qualname) for e in pa.walk_events() if e.kind == "store" and e.attr == "settings"]
